@@ -22,7 +22,7 @@ Subset (everything else raises Untranslatable):
   * statements: docstring, pass, import (the bound names are globals of the oracle unless translated in the same file),
     `x = e`, `a, b = e` (tuple unpacking: `Dyn.unpackN`, ValueError on a length mismatch), `x[k] = e`, `del x[k]`, `x op= e`,
     expression statements, `return [e]`, `raise E[(message)]`, bare `raise` in a handler, `if/elif/else`, `for t in it`
-    with `break` / `continue` / `return` inside, `try/except` (several handlers, tuples of classes, no `else`/`finally`),
+    with `break` / `continue` / `return` inside (`for … else` when the body has no `break`), `try/except` (several handlers, tuples of classes, no `else`/`finally`),
     nested `def` / `lambda` (closures over names that are not re-assigned afterwards).
     Control flow is made explicit with the prelude's `Flow` / `LFlow` (falls through with the values of the variables the
     block assigns | `return r` | `break` | `continue`), loops are `Dyn.forM` (no escape in the body) or `Dyn.forIn`.
@@ -32,6 +32,7 @@ Subset (everything else raises Untranslatable):
     keyword, `**d`), the operators + - * / ** % and unary -, comparisons (== != < <= > >= in / not in / is / is not), and / or /
     not (short-circuit), conditional expressions, the built-ins isinstance (built-in types, class objects, tuples of them),
     float, list, tuple, str, len, zip, enumerate, reversed, map (consumed by list()/tuple()/for), max, getattr, dict(),
+    issubclass / hasattr (answered by the oracle),
     the methods lower / upper / strip / split / join / format / items / keys / values / pop / append / extend / update /
     index of built-in values (an object receiver: the oracle), any other method (oracle).
   * calls of functions translated earlier in the same file (by `callname`), with defaults, keywords and `mutates`.
